@@ -96,7 +96,7 @@ CLAIMED = {
          "magnitude for EVERY MRP; gyro = omega + bias; truth propagation keeps |r| <= 1; an accepted magnetometer / accelerometer correction "
          "writes ALL THREE gyro-bias components with the gain rule b+ = b + K r (QR-abstracted variants). The trajectory-level convergence claim "
          "is not a theorem (stability of a time-varying EKF in doubles across SimPy processes): the check runs the real launch_sim with noise off "
-         "over sampled initial attitudes, biases, inclinations, with/without initialisation (thresholds 0.05 rad, bias error <= max(0.01, half the "
+         "over sampled initial attitudes, biases, inclinations, with/without initialisation (thresholds 0.05 rad, bias error <= max(0.02, half the "
          "initial error)) and reports a failing history if one exists.",
          "DESIGN.md §2 C12", TECH_T + "; closed-loop part: falsification sweep over real launch_sim histories (support, not proof)"),
  "C09": ("translation_validation", "Per-program translation validation closed by a Lean theorem: every shipped equation set (estimator and simulator through both "
